@@ -10,7 +10,8 @@
    the caller calls Release. *)
 From Coq Require Import List NArith Bool String.
 Import ListNotations.
-From OV Require Import Base.Bytes Base.Tree Model.Stream Proofs.Stream Proofs.StreamXml Proofs.StreamJson Proofs.StreamSplit Proofs.StreamInv.
+From OV Require Import Base.Bytes Base.Tree Model.Stream Proofs.Stream Proofs.StreamXml Proofs.StreamJson Proofs.StreamSplit Proofs.StreamInv Proofs.StreamRetain Proofs.StreamSys.
+From OV Require Import Gen.StreamSplit.
 
 (* For every XML document, every target of the class and every Release pattern: the reader ends
    with EOF and the delivered snapshots are exactly the whole-document selection (same nodes,
@@ -79,6 +80,76 @@ Theorem delivered_satisfies_pred :
       xreach pm pred has_filter st -> s_stream st <> SClosed ->
       xstep pm pred has_filter false st tk = RDeliver t n st' -> pred t = true.
 Proof. exact delivered_satisfies_pred_proof. Qed.
+
+(* The split each reader actually installs: which function New{XML,JSON}StreamReader applies to the
+   target text, the characters removeLastFilterInXPath reacts to and the trim cutset of
+   removeTrailingFiltersInXPath are EXTRACTED from the source on every run (Gen/StreamSplit.v); the
+   theorem is re-checked over what the source says now. *)
+Theorem split_filter_readers : forall tg, target_ok tg ->
+  split_filter_by gen_xml_splitfn (render_target tg) =
+    Some (render_steps (t_steps tg), negb (match t_filters tg with [] => true | _ => false end))
+  /\ split_filter_by gen_json_splitfn (render_target tg) =
+    Some (render_steps (t_steps tg), negb (match t_filters tg with [] => true | _ => false end)).
+Proof. exact split_filter_readers_proof. Qed.
+
+(* The attribute loop of the XML reader (parse(), case xml.StartElement), turn by turn
+   ([add_attr]: attribute node becomes cur, its value is hung below it - also the empty value -,
+   cur goes back to the element).  For EVERY attribute list, every element frame, every rest of
+   the spine and every stream pointer: cur is the element again, the stream pointer and the spine
+   are untouched, and the element has gained exactly one attribute node per attribute, in order,
+   each with exactly one text child holding the value. *)
+Theorem xml_attribute_loop : forall attrs g rest s,
+  fold_left add_attr attrs (mkS (g :: rest) None s) =
+  mkS (mkF (f_ty g) (f_data g) (f_fs g) (f_kids g ++ map attr_node attrs) :: rest) None s.
+Proof. exact add_attrs_eq. Qed.
+
+(* ... hence a start tag = new element frame holding its attribute nodes, then the candidate check *)
+Theorem xml_start_element : forall pm stack d s nm fs attrs,
+  xstart pm (mkS stack d s) nm fs attrs =
+  candidate_check pm (mkS (mkF ElementNode nm fs (map attr_node attrs) :: stack) None s).
+Proof. exact xstart_eq. Qed.
+
+(* cur / stream bookkeeping at every end tag: for EVERY element or character data [x] (any
+   nesting, any attributes), from any state between tokens with no candidate open, after the
+   events of [x] the spine is the one before - only cur's child list has grown by what [x] leaves
+   behind ([grow]: nothing if [x] is on the path, its pruned tree otherwise) -, no candidate is
+   open, the invariant holds again, and the deliveries are [xspec]. *)
+Theorem xml_element_bookkeeping :
+  forall (pm : list name -> bool) (pred : tree -> bool) (has_filter : bool),
+    (has_filter = false -> forall t, pred t = true) ->
+    forall x f r rel rest, Inv pm (f :: r) ->
+      exists L, map fst L = xspec pm pred (chain_of (f :: r)) x /\
+        xrun pm pred has_filter false (mkS (f :: r) None SNone) rel (xevents x ++ rest) =
+        prepend L (xrun pm pred has_filter false
+                     (mkS (add_kids f (grow pm (chain_of (f :: r)) x) :: r) None SNone)
+                     (skipn (List.length L) rel) rest) /\
+        Inv pm (add_kids f (grow pm (chain_of (f :: r)) x) :: r) /\
+        (pm (chain_of (f :: r) ++ [xname x]) = true ->
+         Forall (fun d => snd d = retained (mkS (f :: r) None SNone) + tree_size (xtree x)) L).
+Proof. exact run_node. Qed.
+
+(* Several readers alive at once ([sys_run]: a schedule names, step by step, the reader that
+   consumes its next token).  The readers of the model share NOTHING - that is an assumption about
+   the implementation, checked there by the interleaving oracle (a process-wide table would break
+   it: C04-r32).  Under it, for EVERY schedule and every set of readers, reader i is exactly where
+   its own steps take it ... *)
+Theorem reader_independent :
+  forall pm pred has_filter sched rds i rd,
+    nth_error rds i = Some rd ->
+    nth_error (sys_run pm pred has_filter sched rds) i =
+    Some (Nat.iter (count_occ PeanoNat.Nat.eq_dec sched i) (xreader_step pm pred has_filter) rd).
+Proof. exact reader_independent_proof. Qed.
+
+(* ... and once the schedule has let it run to its end, what it delivered is what its solo
+   Read-to-EOF loop delivers (so xml_stream_eq_select applies to every reader of the system). *)
+Theorem interleaved_eq_solo :
+  forall pm pred has_filter sched rds i rel toks,
+    nth_error rds i = Some (xreader_init rel toks) ->
+    List.length toks < count_occ PeanoNat.Nat.eq_dec sched i ->
+    exists rd, nth_error (sys_run pm pred has_filter sched rds) i = Some rd /\
+               xr_out rd = fst (xrun pm pred has_filter false x_init rel toks) /\
+               xr_status rd = Ended (snd (xrun pm pred has_filter false x_init rel toks)).
+Proof. exact interleaved_eq_solo_proof. Qed.
 
 Theorem release_then_prologue : forall st st1,
   release st = Some st1 -> read_prologue st1 = read_prologue st.
@@ -183,3 +254,23 @@ Proof.
     Unshelve. all: discriminate.
   - reflexivity.
 Qed.
+
+(* the attribute loop with empty values in first, middle and last position; two readers interleaved *)
+Example attribute_loop_nonvacuous :
+  let attrs := [(bs "a", FXml [] [], []); (bs "b", FXml (bs "p") (bs "urn:p"), bs "1"); (bs "c", FXml [] [], [])] in
+  xstep (fun _ => false) ptrue false false x_init (XStart (bs "r") (FXml [] []) attrs) =
+  RCont (mkS [mkF ElementNode (bs "r") (FXml [] [])
+                [T AttributeNode (bs "a") (FXml [] []) [T TextNode [] (FXml [] []) []];
+                 T AttributeNode (bs "b") (FXml (bs "p") (bs "urn:p")) [T TextNode (bs "1") (FXml [] []) []];
+                 T AttributeNode (bs "c") (FXml [] []) [T TextNode [] (FXml [] []) []]];
+              mkF DocumentNode [] (FXml [] []) []] None SNone).
+Proof. vm_compute. reflexivity. Qed.
+
+Example interleaved_nonvacuous :
+  let tg := mkTarget [(Desc, nt "n")] [] in
+  let a := xdoc_events [E "r" [E "n" [XT (bs "1")]; E "n" [XT (bs "2")]]] in
+  let b := xdoc_events [E "q" [E "n" []]] in
+  let sys := sys_run (pm_of tg) (pred_target tg) false [0; 1; 1; 0; 0; 1; 0; 1; 0; 0; 1; 0; 0; 0; 1; 0]
+               [xreader_init [true; false] a; xreader_init [] b] in
+  map (fun rd => (List.length (xr_out rd), xr_status rd)) sys = [(2, Ended FEOF); (1, Ended FEOF)].
+Proof. vm_compute. reflexivity. Qed.
